@@ -96,6 +96,8 @@ func (env *SpecEnv) eval(e Expr) *Val {
 	switch x := e.(type) {
 	case *IntLit:
 		return intVal(intLit(x.V))
+	case *RealLit:
+		return &Val{T: x.V, Typ: types.Typ[types.Float64]}
 	case *BoolLit:
 		if x.V {
 			return boolVal("true")
@@ -231,7 +233,18 @@ func (env *SpecEnv) binary(x *Binary) *Val {
 		}
 		return boolVal(t)
 	case "<", "<=", ">", ">=":
-		return boolVal(cmp(x.Op, vc.term(env.eval(x.X)), vc.term(env.eval(x.Y))))
+		a, b := env.eval(x.X), env.eval(x.Y)
+		ta, tb := vc.term(a), vc.term(b)
+		ra := a.Typ != nil && vc.sortOf(a.Typ) == "Real"
+		rb := b.Typ != nil && vc.sortOf(b.Typ) == "Real"
+		if ra != rb {
+			if !ra {
+				ta = toReal(ta)
+			} else {
+				tb = toReal(tb)
+			}
+		}
+		return boolVal(cmp(x.Op, ta, tb))
 	}
 	a, b := env.eval(x.X), env.eval(x.Y)
 	ta, tb := vc.term(a), vc.term(b)
@@ -288,6 +301,16 @@ func (env *SpecEnv) binary(x *Binary) *Val {
 	}
 	env.fail("unsupported operator %s", x.Op)
 	return nil
+}
+
+func toReal(t Term) Term {
+	if isIntLit(t) {
+		if strings.HasPrefix(t, "(- ") {
+			return "(- " + t[3:len(t)-1] + ".0)"
+		}
+		return t + ".0"
+	}
+	return "(to_real " + t + ")"
 }
 
 func isNilIdent(e Expr) bool {
@@ -625,6 +648,14 @@ func (env *SpecEnv) call(x *CallE) *Val {
 		argn(1)
 		a := vc.term(env.eval(x.Args[0]))
 		return intVal(ite(cmp(">=", a, "0"), a, sub("0", a)))
+	case "trunc":
+		// trunc(x): float-to-integer conversion (toward zero)
+		argn(1)
+		a := vc.term(env.eval(x.Args[0]))
+		return intVal(fmt.Sprintf("(ite (>= %s 0.0) (to_int %s) (- (to_int (- %s))))", a, a, a))
+	case "real":
+		argn(1)
+		return &Val{T: toReal(vc.term(env.eval(x.Args[0]))), Typ: types.Typ[types.Float64]}
 	case "fdiv": // floor division
 		argn(2)
 		return intVal("(div " + vc.term(env.eval(x.Args[0])) + " " + vc.term(env.eval(x.Args[1])) + ")")
@@ -652,10 +683,7 @@ func (env *SpecEnv) call(x *CallE) *Val {
 		if env.held == nil {
 			return boolVal("true")
 		}
-		if env.held[mv.P.Heap+"@"+mv.P.Ref] {
-			return boolVal("true")
-		}
-		return boolVal("false")
+		return boolVal(heldFormula(env.held, mv.P.Heap, mv.P.Ref))
 	case "allocated":
 		argn(1)
 		return boolVal(sel(env.curHeap().Get("$alloc"), env.refOf(env.eval(x.Args[0]))))
